@@ -105,3 +105,63 @@ pub fn new_revertible_market<'a, 'info>(
 ) -> Result<RevertibleMarket<'a, 'info>> {
     RevertibleMarket::new(market, None, EventEmitter::new(event_authority, bump))
 }
+
+/// `RevertibleLiquidityMarket::from_revertible_market`, optionally with mint/burn enabled and a
+/// swap pricing kind (what `unchecked_deposit` / `unchecked_withdraw` set up).
+pub fn new_revertible_liquidity_market<'a, 'info>(
+    market: RevertibleMarket<'a, 'info>,
+    market_token: &'a Account<'info, anchor_spl::token::Mint>,
+    token_program: &'a AccountInfo<'info>,
+    store: &'a AccountLoader<'info, Store>,
+    mint_receiver: Option<&'a AccountInfo<'info>>,
+    burn_vault: Option<&'a AccountInfo<'info>>,
+    swap_pricing: Option<crate::states::market::revertible::market::SwapPricingKind>,
+) -> Result<crate::states::market::revertible::RevertibleLiquidityMarket<'a, 'info>> {
+    let mut market =
+        crate::states::market::revertible::RevertibleLiquidityMarket::from_revertible_market(
+            market,
+            market_token,
+            token_program,
+            store,
+        )?;
+    if let Some(receiver) = mint_receiver {
+        market = market.enable_mint(receiver);
+    }
+    if let Some(vault) = burn_vault {
+        market = market.enable_burn(vault);
+    }
+    if let Some(kind) = swap_pricing {
+        market = market.with_swap_pricing_kind(kind);
+    }
+    Ok(market)
+}
+
+/// `RevertibleLiquidityMarket::base_mut().update_fees_state(prices)` (the `pre_execute` step).
+pub fn revertible_liquidity_market_update_fees_state(
+    market: &mut crate::states::market::revertible::RevertibleLiquidityMarket<'_, '_>,
+    prices: &gmsol_model::price::Prices<u128>,
+) -> Result<()> {
+    market.base_mut().update_fees_state(prices)
+}
+
+/// `RevertibleMarket::update_fees_state`.
+pub fn revertible_market_update_fees_state(
+    market: &mut RevertibleMarket<'_, '_>,
+    prices: &gmsol_model::price::Prices<u128>,
+) -> Result<()> {
+    market.update_fees_state(prices)
+}
+
+/// `RevertibleMarket::next_trade_id`.
+pub fn revertible_market_next_trade_id(market: &mut RevertibleMarket<'_, '_>) -> Result<u64> {
+    market.next_trade_id()
+}
+
+/// `RevertiblePosition::new`.
+pub fn new_revertible_position<'a, 'info>(
+    market: RevertibleMarket<'a, 'info>,
+    position: &'a AccountLoader<'info, crate::states::Position>,
+    allow_market_closed: bool,
+) -> Result<crate::states::market::revertible::RevertiblePosition<'a, 'info>> {
+    crate::states::market::revertible::RevertiblePosition::new(market, position, allow_market_closed)
+}
